@@ -107,6 +107,41 @@ class _Normalise(ast.NodeTransformer):
     """Source normalisation applied when a module is loaded, so that rules see one spelling of equivalent code:
     a single comparison with the constant on the left (`"x" == v`, `None is v`, `1 < n`) is turned round (`v == "x"`, `v is None`, `n > 1`).
     Positions are kept; nothing else is rewritten."""
+    def visit_Module(self, node):
+        # `import os as os_` / `from .errors import X as Y`: the alias is undone (uses renamed back) when the original name is not bound otherwise in the module
+        bound = set()
+        for n in ast.walk(node):
+            if isinstance(n, ast.Name) and isinstance(n.ctx, (ast.Store, ast.Del)):
+                bound.add(n.id)
+            elif isinstance(n, (ast.FunctionDef, ast.AsyncFunctionDef, ast.ClassDef)):
+                bound.add(n.name)
+            elif isinstance(n, ast.arg):
+                bound.add(n.arg)
+            elif isinstance(n, ast.ExceptHandler) and n.name:
+                bound.add(n.name)
+            elif isinstance(n, (ast.Import, ast.ImportFrom)):
+                for a in n.names:
+                    if a.asname is None:
+                        bound.add(a.name.split(".")[0])
+        ren = {}
+        for n in ast.walk(node):
+            if isinstance(n, (ast.Import, ast.ImportFrom)):
+                for a in n.names:
+                    if a.asname and "." not in a.name and a.name != "*" and a.name not in bound and a.asname not in ren and a.asname != a.name:
+                        uses_elsewhere = a.asname in bound
+                        if not uses_elsewhere:
+                            ren[a.asname] = a.name
+        if ren:
+            for n in ast.walk(node):
+                if isinstance(n, ast.Name) and n.id in ren:
+                    n.id = ren[n.id]
+                elif isinstance(n, (ast.Import, ast.ImportFrom)):
+                    for a in n.names:
+                        if a.asname in ren and ren[a.asname] == a.name:
+                            a.asname = None
+        self.generic_visit(node)
+        return node
+
     _FLIP = {ast.Eq: ast.Eq, ast.NotEq: ast.NotEq, ast.Is: ast.Is, ast.IsNot: ast.IsNot, ast.Lt: ast.Gt, ast.Gt: ast.Lt, ast.LtE: ast.GtE, ast.GtE: ast.LtE}
 
     def visit_Compare(self, node):
